@@ -176,7 +176,7 @@ def view(spec):
 
 
 def runner_files(tier, seed):
-    return rcrun.run_rc(ID, "files", "rc_c15", tier, seed, {"quick": 40000, "thorough": 600000}[tier], ["files.nontrivial"])
+    return rcrun.run_rc(ID, "files", "rc_c15", tier, seed, {"quick": 40000, "thorough": 600000}[tier], ["files.nontrivial", "files.custom_periodicity"])
 
 
 PARTS = {
